@@ -399,9 +399,9 @@ Proof.
     rewrite apply_down. auto.
   - unfold frame. cbn. auto.
   - (* MPurgeShard *)
-    unfold purge_shard, frame. cbn [with_rib g_ph g_walk g_stale g_ssn g_keys g_rib]. repeat split; auto.
-    intros j b q. unfold F. cbn [g_evs with_rib with_evs]. rewrite bcast_fold. destruct (live g j); cbn [andb]; auto.
-    rewrite withdraw_fold, existsb_filter_key. unfold inkeys. auto.
+    unfold purge_shard, frame. destruct all; cbn [set_llgr with_rib g_ph g_walk g_stale g_ssn g_keys g_rib]; repeat split; auto;
+    intros j b q; unfold F; cbn [set_llgr g_evs with_rib with_evs]; rewrite bcast_fold; destruct (live g j); cbn [andb]; auto;
+    rewrite withdraw_fold, existsb_filter_key; unfold inkeys; auto.
   - unfold frame. cbn. auto.
   - (* MResetShard *)
     unfold reset_shard, frame. cbn [with_rib g_ph g_walk g_stale g_ssn g_keys g_rib]. repeat split; auto.
